@@ -48,6 +48,11 @@ type constructorNode struct {
 	// Whether the constructor owned by this node was already called.
 	called bool
 
+	// Whether this node is currently building its dependencies or running
+	// its constructor. Reaching it again in that state means that the
+	// resolution is going around a cycle.
+	onStack bool
+
 	// Type information about constructor parameters.
 	paramList paramList
 
@@ -144,6 +149,22 @@ func (n *constructorNode) Call(c containerStore) (err error) {
 	if n.called {
 		return nil
 	}
+
+	// The graph of a single scope does not contain every dependency (the
+	// parameters of decorators, and of constructors exported from other
+	// scopes, are resolved from a different view), so a cycle can get past
+	// the acyclicity check. Fail instead of building this node inside itself.
+	if n.onStack {
+		return errCycleDetected{
+			Path: []cycleErrPathEntry{
+				{Key: key{t: n.CType()}, Func: n.Location()},
+				{Key: key{t: n.CType()}, Func: n.Location()},
+			},
+			scope: n.s,
+		}
+	}
+	n.onStack = true
+	defer func() { n.onStack = false }()
 
 	if err := shallowCheckDependencies(c, n.paramList); err != nil {
 		return errMissingDependencies{
